@@ -75,7 +75,7 @@ def run(ctx):
     hits = selftest_corruption(ctx, "DecimalTrace", traces[0], corrupt)
     log("self-test: corrupted event rejected with", sorted({h[2] for h in hits}))
     # 4. vacuity and counts
-    by_event, srcs = {}, {}
+    by_event, srcs, raw_cls = {}, {}, {}
     distinct = set()
     id18 = frac18 = int78 = neg = tenth = 0
     samples, seen = [], set()
@@ -94,13 +94,17 @@ def run(ctx):
             if any(lit["frac"]):
                 tenth += 1
                 distinct.add(("p", e["s"]))
+        elif e["event"] == "ParseRaw":
+            raw_cls[e["cls"]] = raw_cls.get(e["cls"], 0) + 1
+            distinct.add(("raw", e["s"]))
         elif e["event"] == "Rescale":
             id18 += e["dec"] == 18
             if e["n"]["b"]:
                 distinct.add(("r", e["dir"], e["dec"], e["n"]["neg"], bytes(e["n"]["b"])))
         elif e["n"]["b"]:
             distinct.add((e["event"], e["n"]["neg"], bytes(e["n"]["b"])))
-    for k in ("Parse", "Format", "RoundTrip", "Rescale", "EthValue"):
+    require(len(raw_cls) >= 10 and raw_cls.get("leadzero", 0) > 100, "raw string classes missing: %s" % raw_cls, ctx=ctx)
+    for k in ("Parse", "ParseRaw", "Format", "RoundTrip", "Rescale", "EthValue"):
         require(by_event.get(k, 0) > 20, "event kind %s hardly occurred" % k, ctx=ctx)
     require(id18 > 20 and frac18 > 20 and int78 > 20 and neg > 20 and tenth > 100,
             "boundary classes missing (dec=18: %d, 18 fraction digits: %d, 78 integer digits: %d, negative: %d, non-dyadic: %d)"
@@ -122,6 +126,7 @@ def run(ctx):
         "traces_validated_against_impl": len(traces),
         "events_validated": events,
         "events_by_kind": by_event,
+        "raw_string_classes": raw_cls,
         "concurrent_conversions": nconc,
         "events_by_source": srcs,
         "tlc_cases": kinds,
